@@ -40,6 +40,14 @@ use vharness::{
 };
 
 const QTY: i64 = 10;
+/// `filled` code for "everything but a sliver": filled = QTY - 1e-12. The order is NOT fully filled (a
+/// non-zero remainder, however small, is still open on the exchange), so every rule treats it like a
+/// partial fill - venues quote quantities with many decimals.
+const NEAR: i64 = 9;
+
+fn filled_dec(code: i64) -> Decimal {
+    if code == NEAR { Decimal::from(QTY) - Decimal::new(1, 12) } else { Decimal::from(code) }
+}
 
 #[derive(Debug, Clone, Copy, PartialEq, Eq, Hash, Serialize, Deserialize, PartialOrd, Ord)]
 struct D {
@@ -53,13 +61,13 @@ impl D {
         self.filled == QTY
     }
     fn open(&self) -> Open {
-        Open { id: OrderId::new(format!("oid{}", self.id)), time_exchange: t(self.t), filled_quantity: Decimal::from(self.filled) }
+        Open { id: OrderId::new(format!("oid{}", self.id)), time_exchange: t(self.t), filled_quantity: filled_dec(self.filled) }
     }
     fn of(open: &Open) -> D {
         D {
             id: open.id.0.trim_start_matches("oid").parse().unwrap_or(255),
             t: fixtures::ms_of(open.time_exchange),
-            filled: i64::try_from(open.filled_quantity).unwrap_or(-1),
+            filled: if open.filled_quantity == filled_dec(NEAR) { NEAR } else if open.filled_quantity.fract().is_zero() { i64::try_from(open.filled_quantity).unwrap_or(-1) } else { -1 },
         }
     }
 }
@@ -644,6 +652,7 @@ fn core_alphabet() -> Vec<In> {
         In::SnapOpen(D { id: 1, t: 3, filled: 4 }),
         In::SnapOpen(D { id: 1, t: 2, filled: QTY }),
         In::SnapOpen(D { id: 1, t: 3, filled: QTY }),
+        In::SnapOpen(D { id: 1, t: 3, filled: NEAR }),
         In::SnapCIF(None),
         In::SnapCancelled(3),
         In::SnapFullyFilled,
@@ -685,7 +694,7 @@ fn random_input(rng: &mut Rng) -> In {
                 In::SnapCIF(Some(D { id, t: tt, filled: *rng.pick(&[0, 4]) }))
             }
         }
-        34..=63 => In::SnapOpen(D { id, t: tt, filled: *rng.pick(&[0, 0, 4, 4, QTY]) }),
+        34..=63 => In::SnapOpen(D { id, t: tt, filled: *rng.pick(&[0, 0, 4, 4, QTY, QTY, NEAR]) }),
         64..=69 => In::SnapCancelled(tt),
         70..=74 => In::SnapFullyFilled,
         75..=77 => In::SnapExpired,
